@@ -6,6 +6,7 @@ use std::{
     cmp,
     collections::VecDeque,
     net::SocketAddr,
+    ops::RangeInclusive,
     time::{Duration, Instant},
 };
 
@@ -22,7 +23,7 @@ use camino::Utf8Path;
 use klukai_types::{
     actor::{Actor, ActorId},
     agent::{Agent, Bookie, SplitPool},
-    base::CrsqlSeq,
+    base::{CrsqlDbVersion, CrsqlSeq},
     broadcast::{BroadcastInput, BroadcastV1, ChangeSource, ChangeV1, FocaInput},
     channel::CorroReceiver,
     members::MemberAddedResult,
@@ -546,6 +547,45 @@ fn calc_busy_timeout(wal_size: u64, threshold: u64) -> u64 {
     timeout
 }
 
+type SeenCache = IndexMap<(ActorId, CrsqlDbVersion), RangeInclusiveSet<CrsqlSeq>>;
+
+/// Forget what a change recorded in the seen cache, so that the same change
+/// is accepted when it is offered again (used when the change was dropped or
+/// when the batch carrying it could not be stored).
+fn forget_seen(
+    seen: &mut SeenCache,
+    actor_id: ActorId,
+    versions: RangeInclusive<CrsqlDbVersion>,
+    seqs: Option<RangeInclusive<CrsqlSeq>>,
+) {
+    for v in versions {
+        if let Entry::Occupied(mut entry) = seen.entry((actor_id, v)) {
+            if let Some(seqs) = seqs.clone() {
+                entry.get_mut().remove(seqs);
+                // an entry without seqs would still suppress empty changesets
+                if entry.get().is_empty() {
+                    entry.swap_remove_entry();
+                }
+            } else {
+                entry.swap_remove_entry();
+            }
+        };
+    }
+}
+
+type SeenKey = (
+    ActorId,
+    RangeInclusive<CrsqlDbVersion>,
+    Option<RangeInclusive<CrsqlSeq>>,
+);
+
+fn seen_keys(changes: &[(ChangeV1, ChangeSource, Instant)]) -> Vec<SeenKey> {
+    changes
+        .iter()
+        .map(|(change, _, _)| (change.actor_id, change.versions(), change.seqs().cloned()))
+        .collect()
+}
+
 /// Bundle incoming changes to optimise transaction sizes with SQLite
 ///
 /// *Performance tradeoff*: introduce latency (with a max timeout) to
@@ -581,7 +621,7 @@ pub async fn handle_changes(
     } else {
         0
     };
-    let mut seen: IndexMap<_, RangeInclusiveSet<CrsqlSeq>> = IndexMap::new();
+    let mut seen: SeenCache = IndexMap::new();
 
     let mut drop_log_count: u64 = 0;
     // complicated loop to process changes efficiently w/ a max concurrency
@@ -608,12 +648,13 @@ pub async fn handle_changes(
             let changes = std::mem::take(&mut buf);
             let agent = agent.clone();
             let bookie = bookie.clone();
-            join_set.spawn(process_multiple_changes(
-                agent,
-                bookie,
-                changes.clone(),
-                tx_timeout,
-            ));
+            let keys = seen_keys(&changes);
+            join_set.spawn(async move {
+                (
+                    keys,
+                    process_multiple_changes(agent, bookie, changes.clone(), tx_timeout).await,
+                )
+            });
             counter!("corro.agent.changes.batch.spawned").increment(1);
 
             buf_cost -= tmp_cost;
@@ -626,8 +667,13 @@ pub async fn handle_changes(
             // but we need to drain it to free up concurrency
             res = join_set.join_next(), if !join_set.is_empty() => {
                 debug!("processed multiple changes concurrently");
-                if let Some(Ok(Err(e))) = res {
+                if let Some(Ok((keys, Err(e)))) = res {
                     error!("could not process multiple changes: {e}");
+                    // nothing of this batch was stored: forget its changes so
+                    // that they are accepted when they are offered again
+                    for (actor_id, versions, seqs) in keys {
+                        forget_seen(&mut seen, actor_id, versions, seqs);
+                    }
                 }
                 continue;
             },
@@ -651,7 +697,10 @@ pub async fn handle_changes(
                     let changes: Vec<_> = queue.drain(..).collect();
                     let agent = agent.clone();
                     let bookie = bookie.clone();
-                    join_set.spawn(process_multiple_changes(agent, bookie, changes.clone(), tx_timeout));
+                    let keys = seen_keys(&changes);
+                    join_set.spawn(async move {
+                        (keys, process_multiple_changes(agent, bookie, changes.clone(), tx_timeout).await)
+                    });
                     counter!("corro.agent.changes.batch.spawned").increment(1);
                     buf_cost = 0;
                 }
@@ -733,21 +782,13 @@ pub async fn handle_changes(
         if queue.len() >= max_queue_len {
             let mut dropped_count = 0;
             if let Some((dropped_change, _, _)) = queue.pop_front() {
-                for v in dropped_change.versions() {
-                    // forget what the *dropped* change recorded (its own actor),
-                    // so that it is accepted when it is offered again
-                    if let Entry::Occupied(mut entry) = seen.entry((dropped_change.actor_id, v)) {
-                        if let Some(seqs) = dropped_change.seqs().cloned() {
-                            entry.get_mut().remove(seqs);
-                            // an entry without seqs would still suppress empty changesets
-                            if entry.get().is_empty() {
-                                entry.swap_remove_entry();
-                            }
-                        } else {
-                            entry.swap_remove_entry();
-                        }
-                    };
-                }
+                // forget what the *dropped* change recorded (its own actor)
+                forget_seen(
+                    &mut seen,
+                    dropped_change.actor_id,
+                    dropped_change.versions(),
+                    dropped_change.seqs().cloned(),
+                );
 
                 buf_cost -= dropped_change.processing_cost();
                 dropped_count += 1;
